@@ -95,7 +95,10 @@ ObjShapes == <<
   WithLeaf("ol.ptr", Rep(MsgF("Subs", 1, "Leaf"))),
   WithLeaf("ol.val", NonNull(Rep(MsgF("Subs", 1, "Leaf")))),
   WithLeaf("om.ptr", MapOf(MsgF("Dict", 1, "Leaf"))),
-  WithLeaf("om.val", NonNull(MapOf(MsgF("Dict", 1, "Leaf")))) >>
+  WithLeaf("om.val", NonNull(MapOf(MsgF("Dict", 1, "Leaf")))),
+  \* the nested message is declared in another file of the same package
+  Shape("o.xfile", [pkg |-> "tp", msgs |-> <<Msg("Root", <<MsgF("Sub", 1, "Leaf"), Rep(MsgF("Subs", 2, "Leaf"))>>, <<>>)>>,
+                    deps |-> <<[pkg |-> "lim", share |-> TRUE, msgs |-> <<Leaf>>]>>], BaseCfg) >>
 
 OneofShapes == <<
   Shape("x.mixed", Desc(<<Leaf, EmptyM, Msg("Root", <<InOneof(Fld("BranchA", 1, "string"), "Grp"),
